@@ -1027,10 +1027,10 @@ class OdeSystem(object):
                         next_time = self.__t[self.counter]
                         next_state = self.__y[self.counter]
                         prev_time = self.__t[self.counter - 1]
-                        self.counter -= 1
 
                         sol_tuple = (self.__sol, prev_time, next_time)
                         active_events, roots, end_int, evs = handle_events(sol_tuple, events, self.constants, direction, is_terminal, (requires_dstate,))
+                        self.counter -= 1
 
                         if self.counter + len(roots) + 1 >= len(self.__y):
                             total_steps = self.__alloc_space_steps(tf - dTime) + 1 + len(roots)
